@@ -230,6 +230,20 @@ class Gen:
             rhs = [self.int_expr(1), self.int_expr(1)]
             self.ints += [n1, n2]
             return ("tuple", [n1, n2], rhs)
+        if "tuple" in self.f and len(self.ints) >= 2 and r.random() < 0.1:
+            # tuple ASSIGNMENT to declared names (through the parser's block-local temporaries), at any level:
+            # swap of two ints / two floats, rotation of three, parallel assignment with expressions
+            j = r.random()
+            if j < 0.25 and "float" in self.f and len(self.floats) >= 2:
+                a, b = r.sample(self.floats, 2)
+                return ("swap", a, b)
+            if j < 0.5 and len(self.ints) >= 3:
+                a, b, c = r.sample(self.ints, 3)
+                return ("tuple", [a, b, c], [b, c, a])
+            a, b = r.sample(self.ints, 2)
+            if j < 0.75:
+                return ("tuple", [a, b], [b, f"({a} + {self.int_atom()})"])
+            return ("swap", a, b)
         k = r.random()
         if k < 0.22 or not self.ints:
             if top and (not self.ints or (len(self.ints) < 4 and r.random() < 0.5)):
